@@ -1,6 +1,6 @@
 //! C15 on the wall clock: a real event loop (its own thread) whose pool may keep idle workers
 //! (`keep_alive_time`, `min_size`); n tasks block in a hooked nanosleep of d ms, c tasks compute for a few ms.
-//! body: `<n sleepers> <d ms> <c computing> <keep_alive ms> <min_size>`
+//! body: `<n sleepers> <d ms> <c computing> <keep_alive ms> <min_size> [<loops>]` (several loops: the sleepers migrate between the loop threads)
 //! out : `done=<tasks finished> late=<0|1>`  late = the last sleeper finished later than d + 1200 ms
 use crate::rng::Rng;
 use open_coroutine_core::common::constants::DEFAULT_STACK_SIZE;
@@ -15,7 +15,8 @@ pub fn gen(r: &mut Rng, _thorough: bool) -> String {
     let c = r.range(0, 3);
     let keep = *r.pick(&[0u64, 0, 50, 3000, 8000]);
     let min = *r.pick(&[0u64, 0, 0, 1, 2]);
-    format!("{n} {d} {c} {keep} {min}")
+    let loops = *r.pick(&[1u64, 1, 2, 3]);
+    format!("{n} {d} {c} {keep} {min} {loops}")
 }
 
 static DONE: AtomicU64 = AtomicU64::new(0);
@@ -24,9 +25,10 @@ static LAST_MS: AtomicU64 = AtomicU64::new(0);
 pub fn exec(body: &str, emit: &mut dyn FnMut(&str)) {
     std::panic::set_hook(Box::new(|_| {}));
     let w: Vec<u64> = body.split_whitespace().filter_map(|x| x.parse().ok()).collect();
-    if w.len() != 5 { emit("BADCASE"); return; }
+    if w.len() != 5 && w.len() != 6 { emit("BADCASE"); return; }
     let (n, d, c, keep, min) = (w[0], w[1], w[2], w[3], w[4]);
-    let cfg = Config::new(1, DEFAULT_STACK_SIZE, min as usize, 16, keep * 1_000_000, 0, 0, false);
+    let loops = if w.len() == 6 { w[5].max(1) as usize } else { 1 };
+    let cfg = Config::new(loops, DEFAULT_STACK_SIZE, min as usize, 16, keep * 1_000_000, 0, 0, false);
     EventLoops::init(&cfg);
     let start = Instant::now();
     for _ in 0..n {
